@@ -51,7 +51,7 @@ def is_address_valid(address: Optional[int]) -> bool:
         return True
     byte_count = 0
     while address:
-        if (not 0 < (address & 7) <= 5) or (byte_count > 5):
+        if (not 0 < (address & 7) <= 5) or (byte_count > 3):
             return False
         address >>= 3
         byte_count += 1
